@@ -308,7 +308,15 @@ func (e *Engine) scanCallMods(call *ssa.CallCommon, li *loopInfo, ms *modSet, de
 		if isEffectFreePkg(pk) || (m.Name() == "Error" && pk == "") {
 			return
 		}
-		// abstract interface methods are modelled as pure (A9)
+		// abstract interface methods are modelled as pure (A9), unless they
+		// take function values (they may call them)
+		sig := m.Type().(*types.Signature)
+		for i := 0; i < sig.Params().Len(); i++ {
+			if _, ok := sig.Params().At(i).Type().Underlying().(*types.Signature); ok {
+				ms.all = true
+				ms.why = append(ms.why, "interface method with callbacks "+m.Name())
+			}
+		}
 		return
 	}
 	if b, ok := call.Value.(*ssa.Builtin); ok {
@@ -345,6 +353,9 @@ func (e *Engine) scanCallMods(call *ssa.CallCommon, li *loopInfo, ms *modSet, de
 	}
 	if fn == nil {
 		fn = e.globalFuncOf(call.Value) // read-only package-level func variable
+	}
+	if fn == nil && e.curContract != nil && e.curContract.FnParamPure[fnParamName(call.Value)] {
+		return // assumed effect-free (fnparam ... pure)
 	}
 	if fn == nil {
 		ms.all = true
@@ -536,6 +547,7 @@ func (e *Engine) loopEnter(st *State, fr *Frame, b *ssa.BasicBlock, li *loopInfo
 	}
 	if ls != nil {
 		env := e.invEnv(st, fr, b)
+		env.assuming = true
 		for _, inv := range ls.Invariants {
 			st.assume(e.evalBool(env, inv))
 		}
@@ -603,6 +615,7 @@ func (e *Engine) applyModSet(st *State, ms *modSet, resolve func(ssa.Value) *Val
 				bt := resolve(bv)
 				ref := e.valTerm(bt)
 				delete(st.privClean, ref)
+				delete(st.privClean, "holds:"+ref)
 				fv := e.freshName("loop$" + strings.Trim(c, "|"))
 				st.declare(fv, inner)
 				h = sx("store", h, ref, fv)
